@@ -45,6 +45,8 @@ type C08Op struct {
 	// Every execution (and every cache configuration) replaces the placeholders
 	// by names never used before, because registrations cannot be undone.
 	Reg string `json:"reg,omitempty"`
+	// Wide: one call on a struct whose fields point to Wide.N distinct bank types (more than the default cache holds)
+	Wide *C08Fill `json:"wide,omitempty"`
 }
 
 var lateCounter int
@@ -94,7 +96,19 @@ const bankSize = 720
 
 // bankType is type #i of the bank: two fields, three tag names, rules that
 // depend on i (so all types are distinct and each tag name judges differently).
+// bankTags: the bank types carry rule sets under twelve tag names.
+var bankTags = []string{"valid", "alipay", "wechat", "t3", "t4", "t5", "t6", "t7", "t8", "t9", "t10", "t11"}
+
 func bankType(i int) desc.T {
+	ty := bankType3(i)
+	for j := 3; j < len(bankTags); j++ {
+		ty.Fields[0].Tags[bankTags[j]] = fmt.Sprintf("to=%d~%d|%sA%d", 1+(i+j)%4, 2+(i+j)%4+j%3, bankTags[j], i)
+		ty.Fields[1].Tags[bankTags[j]] = fmt.Sprintf("ge=%d|%sB%d", (i+j)%6, bankTags[j], i)
+	}
+	return ty
+}
+
+func bankType3(i int) desc.T {
 	return desc.T{K: "struct", Fields: []desc.F{
 		{Name: "A", T: desc.Scalar("string"), Tags: map[string]string{
 			"valid":  fmt.Sprintf("to=%d~%d|bankA%d", 1+i%4, 2+i%4+i%3, i),
@@ -107,6 +121,24 @@ func bankType(i int) desc.T {
 			"wechat": fmt.Sprintf("gt=%d", i%5),
 		}},
 	}}
+}
+
+// wideBankCall validates, in ONE call, a struct whose fields are pointers to n distinct bank
+// types (more than the default cache holds) followed by scalar fields with rules of its own:
+// the cache entry of the outer type is evicted while the call is still using it.
+func wideBankCall(from, n int) *Call {
+	ty := desc.T{K: "struct"}
+	val := desc.V{}
+	for i := 0; i < n; i++ {
+		bt := bankType((from + i) % bankSize)
+		ty.Fields = append(ty.Fields, desc.F{Name: fmt.Sprintf("N%03d", i), T: desc.Ptr(bt), Tags: map[string]string{"valid": "required"}})
+		val.E = append(val.E, desc.V{E: []desc.V{{E: []desc.V{desc.Str(strPool[(i*5)%7]), {I: int64((i*7)%9 - 1)}}}}})
+	}
+	for j := 0; j < 3; j++ {
+		ty.Fields = append(ty.Fields, desc.F{Name: fmt.Sprintf("Z%d", j), T: desc.Scalar("string"), Tags: map[string]string{"valid": fmt.Sprintf("required|tail %d,to=2~3", j)}})
+		val.E = append(val.E, desc.Str([]string{"", "abcdef", "ab"}[j]))
+	}
+	return &Call{S: &StructCase{Root: desc.Ptr(ty), Val: desc.V{E: []desc.V{val}}, Entry: "Struct"}}
 }
 
 func bankCall(i int, tag string) *Call {
@@ -173,6 +205,9 @@ func (c *C08Case) flatten() []c08Step {
 		}
 		if op.Reg != "" {
 			out = append(out, c08Step{reg: op.Reg})
+		}
+		if op.Wide != nil {
+			out = append(out, c08Step{call: wideBankCall(op.Wide.From, op.Wide.N)})
 		}
 	}
 	return out
@@ -343,10 +378,18 @@ func genC08Case(t *rapid.T) *C08Case {
 	}
 	nOps := rapid.IntRange(4, ev.Pick(40, 80)).Draw(t, "nOps")
 	regAt := rapid.IntRange(1, nOps-1).Draw(t, "regAt")
+	wideAt := -1
+	if rapid.IntRange(0, 14).Draw(t, "wideCall") == 0 {
+		wideAt = rapid.IntRange(0, nOps-1).Draw(t, "wideAt")
+	}
 	var made []*Call
 	for i := 0; i < nOps; i++ {
 		if late != "" && i == regAt {
 			c.Ops = append(c.Ops, C08Op{Reg: late})
+		}
+		if i == wideAt {
+			c.Ops = append(c.Ops, C08Op{Wide: &C08Fill{From: rapid.IntRange(0, bankSize-1).Draw(t, "wideFrom"), N: rapid.IntRange(514, 540).Draw(t, "wideN")}})
+			continue
 		}
 		switch k := rapid.IntRange(0, 19).Draw(t, "op"); {
 		case k <= 2 && len(made) > 0: // the same call again
@@ -360,7 +403,14 @@ func genC08Case(t *rapid.T) *C08Case {
 			made = append(made, nc)
 			c.Ops = append(c.Ops, C08Op{Call: nc})
 		case k <= 8:
-			f := &C08Fill{From: rapid.IntRange(0, bankSize-1).Draw(t, "from"), N: rapid.IntRange(1, 12).Draw(t, "fillN"), Tag: rapid.SampledFrom(multiTags).Draw(t, "fillTag")}
+			f := &C08Fill{From: rapid.IntRange(0, bankSize-1).Draw(t, "from"), N: rapid.IntRange(1, 12).Draw(t, "fillN"), Tag: rapid.SampledFrom(bankTags).Draw(t, "fillTag")}
+			if rapid.IntRange(0, 5).Draw(t, "allTags") == 0 {
+				// one bank type under every tag name in turn, then again under the first ones
+				one := f.From
+				for _, tg := range append(append([]string{}, bankTags...), bankTags[:7]...) {
+					c.Ops = append(c.Ops, C08Op{Fill: &C08Fill{From: one, N: 1, Tag: tg}})
+				}
+			}
 			if rapid.IntRange(0, 19).Draw(t, "bigFill") == 19 {
 				f.N = rapid.IntRange(513, 600).Draw(t, "bigN") // more than the default capacity
 			}
@@ -424,6 +474,10 @@ func c08Sample(c *C08Case) interface{} {
 		}
 		if op.Reg != "" {
 			steps = append(steps, step{Type: "register global function " + op.Reg})
+			continue
+		}
+		if op.Wide != nil {
+			steps = append(steps, step{Type: fmt.Sprintf("one struct with %d distinct nested bank types", op.Wide.N)})
 			continue
 		}
 		steps = append(steps, step{Type: shortType(op.Call.typeKey()), Tag: op.Call.S.tagName(), RM: op.Call.S.Unscoped})
